@@ -267,6 +267,10 @@ def set_block(self, block_index: int, *args: SimpleNamespace) -> None:
     self.block_events[block_index] = new_block
     self.block_durations[block_index] = float(duration)
 
+    # A previously decoded block at this index is now stale
+    if self.use_block_cache:
+        self.block_cache.pop(block_index, None)
+
 
 def get_block(self, block_index: int) -> SimpleNamespace:
     """
